@@ -105,3 +105,81 @@ func H12_Mtcp() {
 	verif.Assert(conn.closed, "server closes the connection when the stream ends")
 	verif.Reach("end")
 }
+
+// slowConn is a fakeConn on a slow link: every Write takes `delay` of (virtual) time after its bytes went out.
+type slowConn struct {
+	fakeConn
+	delay time.Duration
+}
+
+func (c *slowConn) Write(p []byte) (int, error) {
+	n, err := c.fakeConn.Write(p)
+	time.Sleep(c.delay)
+	return n, err
+}
+
+func bigBundle(i int, size int) bpv7.Bundle {
+	pl := make([]byte, size)
+	for j := range pl {
+		pl[j] = byte(i + j)
+	}
+	b, err := bpv7.Builder().Source("dtn://src/").Destination("dtn://dst/").CreationTimestampEpoch().Lifetime("1h").
+		BundleAgeBlock(uint64(i)).PayloadBlock(pl).Build()
+	if err != nil {
+		verif.Assert(false, "bundle builds")
+	}
+	return b
+}
+
+// H12_MtcpSlowLink: the real client with its keep-alive goroutine (5 s ticker, virtual time) on a slow link: small
+// bundles and bundles larger than the 4 KiB write buffer (whose first part goes out before the frame is complete);
+// one send during which keep-alive ticks fall, or two sends started at the same moment from two goroutines. What
+// reaches the wire parses at the server as exactly the bundles whose Send succeeded, unchanged, each once, with the
+// keep-alive frames invisible; a frame is never interleaved with another frame.
+func H12_MtcpSlowLink() {
+	sizes := []int{10, 5000}
+	// 1 s or 3 s per write: below the keep-alive period, so that the keep-alive goroutine does not own the link for ever
+	conn := &slowConn{delay: time.Duration(verif.Choose("delay", 2)*2+1) * time.Second}
+	client := &MTCPClient{conn: conn, peer: bpv7.DtnNone(), reportChan: make(chan cla.ConvergenceStatus, 64),
+		stopSyn: make(chan struct{}), stopAck: make(chan struct{})}
+	go client.handler()
+	time.Sleep(time.Millisecond)
+	two := verif.Bool("two")
+	bs := []bpv7.Bundle{bigBundle(1, sizes[verif.Choose("size0", 2)])}
+	if two {
+		bs = append(bs, bigBundle(2, sizes[verif.Choose("size1", 2)]))
+	}
+	errs := make([]error, len(bs))
+	done := make(chan int, len(bs))
+	for i := range bs {
+		go func(i int) { errs[i] = client.Send(bs[i]); done <- i }(i)
+	}
+	for range bs {
+		<-done
+	}
+	close(client.stopSyn)
+	<-client.stopAck
+	for i := range bs {
+		verif.Assert(errs[i] == nil, "sends on a working connection succeed")
+	}
+	conn.rd = bytes.NewReader(conn.log.Bytes())
+	srv := &MTCPServer{reportChan: make(chan cla.ConvergenceStatus, 16), endpointID: bpv7.DtnNone()}
+	srv.handleSender(&conn.fakeConn)
+	var got [][]byte
+	for len(srv.reportChan) > 0 {
+		st := <-srv.reportChan
+		verif.Assert(st.MessageType == cla.ReceivedBundle, "server reports only received bundles")
+		got = append(got, enc(*st.Message.(cla.ConvergenceReceivedBundle).Bundle))
+	}
+	verif.Assert(len(got) == len(bs), "every bundle whose Send succeeded arrives, each once")
+	for i := range bs {
+		n := 0
+		for _, g := range got {
+			if bytes.Equal(g, enc(bs[i])) {
+				n++
+			}
+		}
+		verif.Assert(n == 1, "bundles arrive unchanged (keep-alive frames and other sends never cut into a frame)")
+	}
+	verif.Reach("end")
+}
